@@ -71,6 +71,9 @@ type violMsg struct {
 	Idx   int64  `json:"idx"`
 	Case  Case   `json:"case"`
 	Res   Result `json:"res"`
+	// what this worker has executed so far (a run that stops at its first violations still reports its coverage)
+	Evals int64 `json:"evals,omitempty"`
+	NT    int64 `json:"nt,omitempty"`
 }
 
 type deadMsg struct {
@@ -246,7 +249,7 @@ func WorkerMain(opts WorkerOpts) {
 		curActive.Store(true)
 		r := SafeRun(chk, *opts.One)
 		curActive.Store(false)
-		b, _ := json.Marshal(violMsg{"one", 0, 0, *opts.One, r})
+		b, _ := json.Marshal(violMsg{T: "one", Case: *opts.One, Res: r})
 		out.Write(b)
 		out.WriteByte('\n')
 		out.Flush()
@@ -340,7 +343,11 @@ func WorkerMain(opts WorkerOpts) {
 				case Skip:
 					sum.Skips[r.Why]++
 				case Viol:
-					b, _ := json.Marshal(violMsg{"viol", li, idx, c, r})
+					ntNow := int64(ntSeen)
+					if r.NT {
+						ntNow++
+					}
+					b, _ := json.Marshal(violMsg{"viol", li, idx, c, r, sum.Evals, ntNow})
 					out.Write(b)
 					out.WriteByte('\n')
 					out.Flush()
